@@ -121,6 +121,9 @@ func (c *sigCtx) val(v Value) {
 		c.visited[v] = true
 		c.b.WriteString("[")
 		for _, e := range v.Entries {
+			if e.Present != nil {
+				c.symb = true
+			}
 			c.val(e.K)
 			c.val(e.V)
 		}
@@ -168,6 +171,9 @@ func (c *sigCtx) val(v Value) {
 		}
 		fmt.Fprintf(&c.b, "ch%d", c.id(v))
 		if !c.x.shared[sharedKeyChan(v)] {
+			if v.ClosedT != nil {
+				c.symb = true
+			}
 			fmt.Fprintf(&c.b, ":%v:%d", v.Closed, len(v.Buf))
 		}
 		c.b.WriteString(";")
